@@ -22,19 +22,22 @@ PadBefore(n, k, s, d, pad) ==
 
 Dense(x, k) == [j \in 1..Len(k[1]) |-> SumSeq([i \in 1..Len(x) |-> x[i] * k[i][j]])]
 
-\* g = [sh, sw, dh, dw, pad]
+\* g = [sh, sw, dh, dw, pad].  Grouped convolution (Keras `groups`): the kernel's third axis holds C / G input channels;
+\* output channel co belongs to group (co - 1) \div (CO / G) and reads that group's slice of the input (G = 1: ordinary)
 Conv2D(x, k, g) ==
   LET H == Len(x)  W == Len(x[1])  C == Len(x[1][1])
-      KH == Len(k)  KW == Len(k[1])  CO == Len(k[1][1][1])
+      KH == Len(k)  KW == Len(k[1])  CIG == Len(k[1][1])  CO == Len(k[1][1][1])
+      G == C \div CIG
       OH == OutSize(H, KH, g.sh, g.dh, g.pad)   OW == OutSize(W, KW, g.sw, g.dw, g.pad)
       PT == PadBefore(H, KH, g.sh, g.dh, g.pad)  PL == PadBefore(W, KW, g.sw, g.dw, g.pad)
       At(r, c, ch) == IF r < 1 \/ r > H \/ c < 1 \/ c > W THEN 0 ELSE x[r][c][ch]
   IN [oh \in 1..OH |-> [ow \in 1..OW |-> [co \in 1..CO |->
-        SumSeq([t \in 1..(KH * KW * C) |->
-           LET kh == (t - 1) \div (KW * C) + 1
-               kw == (((t - 1) \div C) % KW) + 1
-               ci == ((t - 1) % C) + 1
-           IN At((oh - 1) * g.sh + (kh - 1) * g.dh - PT + 1, (ow - 1) * g.sw + (kw - 1) * g.dw - PL + 1, ci)
+        SumSeq([t \in 1..(KH * KW * CIG) |->
+           LET kh == (t - 1) \div (KW * CIG) + 1
+               kw == (((t - 1) \div CIG) % KW) + 1
+               ci == ((t - 1) % CIG) + 1
+               ch == ((co - 1) \div (CO \div G)) * CIG + ci
+           IN At((oh - 1) * g.sh + (kh - 1) * g.dh - PT + 1, (ow - 1) * g.sw + (kw - 1) * g.dw - PL + 1, ch)
               * k[kh][kw][ci][co]])]]]
 
 Depthwise(x, k, g) ==
